@@ -27,3 +27,10 @@ func VerifSessionWithTicket(s *ClientSessionState, ticket []byte) *ClientSession
 func VerifSessionParams(s *ClientSessionState) (vers, cipherSuite uint16) {
 	return s.vers, s.cipherSuite
 }
+
+// VerifSessionSecret returns copies of the secret recorded in a cached client
+// session (the master secret up to TLS 1.2, the resumption master secret in
+// TLS 1.3) and of the TLS 1.3 ticket nonce.
+func VerifSessionSecret(s *ClientSessionState) (secret, nonce []byte) {
+	return append([]byte(nil), s.masterSecret...), append([]byte(nil), s.nonce...)
+}
